@@ -50,10 +50,21 @@ def lock_decorators(chk):
         selfp = g.params[0]
         enters = [n for n in cfg.live if n.kind == "with_enter" and isinstance(n.info["item"].context_expr, ast.Attribute)
                   and isinstance(n.info["item"].context_expr.value, ast.Name) and n.info["item"].context_expr.value.id == selfp]
-        if not enters:
-            continue
-        lock_attr = enters[0].info["item"].context_expr.attr
-        exits = [n for n in cfg.live if n.kind == "with_exit" and unparse(n.info["item"].context_expr) == "%s.%s" % (selfp, lock_attr)]
+        if enters:
+            lock_attr = enters[0].info["item"].context_expr.attr
+            exits = [n for n in cfg.live if n.kind == "with_exit" and unparse(n.info["item"].context_expr) == "%s.%s" % (selfp, lock_attr)]
+        else:
+            # explicit acquire() ... try: call finally: release()
+            acq = [(n, c) for n in cfg.live for c, m in calls_in_node(n) if isinstance(c.func, ast.Attribute) and c.func.attr == "acquire" and not c.args and not c.keywords
+                   and isinstance(c.func.value, ast.Attribute) and isinstance(c.func.value.value, ast.Name) and c.func.value.value.id == selfp]
+            if not acq:
+                continue
+            lock_attr = acq[0][1].func.value.attr
+            enters = [n for n, c in acq]
+            exits = [n for n in cfg.live for c, m in calls_in_node(n) if isinstance(c.func, ast.Attribute) and c.func.attr == "release"
+                     and unparse(c.func.value) == "%s.%s" % (selfp, lock_attr)]
+            if not exits:
+                continue
         ok = True
         for n, c in calls:
             # acquired before, released after, on every path
@@ -219,12 +230,20 @@ def rule_pairing(chk):
     quiet = common.quiet_exc_edges(ctx, w)
     problems = []
     for lst, what, par in ((am, "messages", dparam), (as_, "serializers", sparam)):
-        rng = cfg.count_range(cfg.entry, [cfg.exit, cfg.raise_exit], lambda x: sum(1 for n, c in lst if n is x), avoid_edges=quiet)
+        rng = cfg.count_range(cfg.entry, [cfg.exit], lambda x: sum(1 for n, c in lst if n is x), avoid_edges=quiet)
         if rng != (1, 1):
-            problems.append("appends to %s per write range %s" % (what, rng))
+            problems.append("appends to %s per completed write range %s" % (what, rng))
         for n, c in lst:
             if not (len(c.args) == 1 and isinstance(c.args[0], ast.Name) and c.args[0].id == par and not stores_to_name(w, par)):
                 problems.append("%s.append gets %s, not the %s given to write" % (what, unparse(c.args[0]) if c.args else "?", par))
+    # the two lists move together: once one append happened the other follows before any exit
+    an, sn_ = [n for n, c in am], [n for n, c in as_]
+    for a_, b_, wa, wb in ((an, sn_, "messages", "serializers"), (sn_, an, "serializers", "messages")):
+        first_of_pair = [x for x in a_ if not cfg.precedes(b_, [x])[0]]
+        for x in first_of_pair:
+            okp, wit = cfg.must_pass([s for s, l in x.succ if (x, l) not in quiet], [cfg.exit, cfg.raise_exit], b_, avoid_edges=quiet)
+            if not okp:
+                problems.append("after the append to %s a path leaves write without the append to %s: %s" % (wa, wb, cfg.fmt_path(wit)))
     # nothing that can raise between the two appends
     first = [n for n, c in am + as_]
     for a in first:
